@@ -59,6 +59,12 @@ def main(tier):
     rep = check.Report("C15", tier, "other")
     reg = vx.Registry()
     cs = c15.contracts()
+    # the manager that keeps line-start markup inert while the parser walks the arguments of a call (shared with C14):
+    # a nowiki at the start of a later line of an argument must stay text of that argument
+    from contracts import c14
+    for bc in c14.begline_contracts():
+        bc.prop = "C15"
+        cs.append(bc)
     for c in cs:
         reg.add(c)
     c15.setup_registry(reg)
